@@ -17,6 +17,7 @@ for p in props:
     i = p['id']
     if i in CHECKS and os.path.isdir('/verif/harness/' + i.lower()):
         cat, tech, text, note, ref = CHECKS[i]
+        text = text + EXTRA.get(i, "")
         checks.append({
             "property_id": i,
             "quick_cmd": f"./run.sh {i} quick",
